@@ -23,7 +23,7 @@ BUDGET = {'quick': dict(runs=4000, wall_s=55, chunk=25), 'thorough': dict(runs=8
 COMPONENTS = {'real': ['enspara.cluster.kcenters (serial and MPI iteration)', 'enspara.cluster.util',
                        'enspara.mpi.ops', 'compiled libdist kernels'],
               'stub': ['MPI library (simmpi)', 'heap allocator (simalloc) for poisoned receive buffers']}
-ASSUMPTIONS = ['for md.Trajectory data the metric model is mdtraj.rmsd itself on the whole data set; two evaluations of one RMSD may differ by sqrt(d^2 + 4e-6) - d (batch-dependent last bits of the float32 routine; a frame against itself gives 0..4e-4), reported values are compared with that allowance, near-ties inside it make a scenario not tie-free, and because mdtraj.rmsd moves the frames it is given to their centroid in place, centres and the caller\'s data are compared up to that translation', 'metrics obey the triangle inequality (euclidean, manhattan, chebyshev callable)',
+ASSUMPTIONS = ['for md.Trajectory data the metric model is mdtraj.rmsd itself on the whole data set; two evaluations of one RMSD may differ by sqrt(d^2 + 2e-4) - d (the float32 routine evaluated on frames already moved to their centroid, or in another batch; measured up to 1e-5 in the mean squared deviation, heavy-tailed), reported values are compared with that allowance, near-ties inside it make a scenario not tie-free, and because mdtraj.rmsd moves the frames it is given to their centroid in place, centres and the caller\'s data are compared up to that translation', 'metrics obey the triangle inequality (euclidean, manhattan, chebyshev callable)',
                'clauses that compare two runs bit for bit (shortcut on/off, prefix runs) are evaluated only on '
                'scenarios the float64 model classifies as tie-free',
                'stopping decisions within 1e-11 relative of the cutoff (4e-6 for float32 data, whose kernel subtracts in float32) are accepted either way']
